@@ -4,6 +4,7 @@ import collections, itertools, random
 import core
 from core import nats
 from runner import Case
+from props import _d_hist as H
 
 THEOREMS = [
     "C12.ancestors_eq", "C12.descendants_eq", "C12.leaves_eq", "C12.siblings_eq",
@@ -17,7 +18,7 @@ RULE = ("(Node, BaseNode and BinaryNode objects) every derived property on every
         "of: all ordered trees up to N nodes (Node), all binary shapes with empty slots up to M nodes (BinaryNode), "
         "random trees (<=40 nodes, depth<=10, fan-out<=8, incl. wide nodes whose tallest children come last), "
         "random binary trees, and go_to across two different trees (refused); non-trivial = the tree has >=3 nodes; "
-        "distinct = distinct protocol lines")
+        "distinct = distinct protocol lines; plus HISTORIES: a warm-up read of every property on every node, then re-parenting (also from one tree into another), detach + re-attach, children reordering, refused re-parentings (loop / full BinaryNode, caught by the caller), BinaryNode slot swaps and moves, then the compared reads - the model receives only the final tree(s) (every single re-parenting on all trees with <=4/5 nodes, random scripts of 1-6 edits)")
 EXHAUSTIVE = {
     "quick": "all ordered rooted trees with <=6 nodes x every node (all 13 properties) x every ordered pair (go_to); "
              "all BinaryNode shapes with <=5 nodes (empty slots in every position) x every node x every ordered pair",
@@ -97,6 +98,74 @@ def wide_tall_last(rng, fan, tall):
     return kids
 
 
+def _hist_cases(rng, d0, n, tags, all_pairs):
+    out = []
+    for v in range(n):
+        d = dict(d0, op="props", node=v)
+        out.append(Case(_line(d), d, tags + ("props",)))
+    pairs = [(a, b) for a in range(n) for b in range(n)]
+    if not all_pairs and len(pairs) > 40:
+        pairs = rng.sample(pairs, 40)
+    for a, b in pairs:
+        d = dict(d0, op="goto")
+        d["from"], d["to"] = a, b
+        out.append(Case(_line(d), d, tags + ("goto",)))
+    return out
+
+
+def _gen_histories(rng, tier):
+    quick = tier == "quick"
+    out = []
+    warm = lambda edits: [([rng.randrange(64) for _ in range(3)] if rng.random() < 0.5 else []) for _ in edits]
+    kinds = ("move", "move", "reattach", "reorder", "failmove")
+    # corpus: a refused re-parenting of a LEFT / RIGHT child of a BinaryNode (full target, loop), then all reads
+    full = ("1", {}, ("2", {}, ("4", {}, None, None), None), ("3", {}, ("5", {}, None, None), ("6", {}, None, None)))
+    for e in (["bfail", 1, 3], ["bfail", 2, 3], ["bfail", 4, 3], ["bfail", 1, 2], ["bfail", 5, 0], ["bfail", 6, 0]):
+        d0 = {"spec": full, "binary": True, "spec2": None, "binary2": False, "cls": "node",
+              "hist": {"inits": [full], "edits": [e], "warm": [[]]}}
+        out += _hist_cases(rng, d0, 6, ("corpus", "hist-refused"), True)
+    # systematic: every single re-parenting on all small trees
+    for shape in core.all_shapes_upto(4 if quick else 5):
+        init = spec_from_shape(shape)
+        an = H.from_spec(init)
+        n = len(an)
+        for a in an[1:]:
+            for p in an:
+                if p is a.parent or H._in_subtree(a, p):
+                    continue
+                e = ["move", a.idx, p.idx]
+                fs, _o = H.final(init, [e])
+                d0 = {"spec": fs, "binary": False, "spec2": None, "binary2": False, "cls": "node",
+                      "hist": {"inits": [init], "edits": [e], "warm": [[]]}}
+                out += _hist_cases(rng, d0, n, ("hist-single",), not quick)
+    # random histories on one tree or across two trees
+    for _ in range(40 if quick else 400):
+        s1 = spec_from_shape(core.random_shape(rng, rng.randint(2, 16)))
+        two = rng.random() < 0.4
+        inits = [s1]
+        if two:
+            inits.append(core.label(core.random_shape(rng, rng.randint(1, 8)), lambda i, dd, k, pp: "m%d" % i))
+        edits = H.random_edits(rng, inits, rng.randint(1, 6), [], kinds=kinds, forest=True)
+        if not edits:
+            continue
+        fs, _o = H.final_forest(inits, edits)
+        cls = "base" if rng.random() < 0.3 else "node"
+        d0 = {"spec": fs[0], "binary": False, "spec2": fs[1] if two else None, "binary2": False, "cls": cls,
+              "hist": {"inits": inits, "edits": edits, "warm": warm(edits)}}
+        n = sum(core.spec_size(x) for x in fs)
+        out += _hist_cases(rng, d0, n, ("hist-random", "cls=" + cls, "two-trees" if two else "one-tree"), False)
+    for _ in range(25 if quick else 250):
+        init = core.label_bshape(core.random_bshape(rng, rng.randint(2, 12)))
+        edits = H.random_bstruct_edits(rng, init, rng.randint(1, 4))
+        if not edits:
+            continue
+        fs, _o = H.bstruct_final(init, edits)
+        d0 = {"spec": fs, "binary": True, "spec2": None, "binary2": False, "cls": "node",
+              "hist": {"inits": [init], "edits": edits, "warm": warm(edits)}}
+        out += _hist_cases(rng, d0, bsize(fs), ("hist-binary",), False)
+    return out
+
+
 def gen(rng: random.Random, tier: str):
     cases = []
     # ---- corpus
@@ -167,6 +236,8 @@ def gen(rng: random.Random, tier: str):
             cases.append(mk_props(spec, v, binary=True, tags=("random-binary", "props")))
         for _k in range(40):
             cases.append(mk_goto(spec, rng.randrange(nb), rng.randrange(nb), binary=True, tags=("random-binary", "goto")))
+    # ---- histories: build -> read everything -> re-parent / reorder (also across two trees) -> compared reads
+    cases += _gen_histories(rng, tier)
     # ---- two different trees: go_to must be refused (and still work inside either tree)
     shapes = list(core.all_shapes_upto(4))
     for s1 in shapes:
@@ -215,7 +286,54 @@ def _build_base(spec):
     return go(spec, None), nodes
 
 
+def _warmup(objs, light=None):
+    """read every derived property (and a go_to) on (some of) the nodes, results discarded"""
+    todo = objs if light is None else [objs[i % len(objs)] for i in light]
+    for n in todo:
+        for f in (lambda: (list(n.ancestors), list(n.descendants), list(n.leaves), n.siblings, n.left_sibling,
+                           n.right_sibling, n.node_path, n.root, n.is_root, n.is_leaf, n.depth, n.max_depth, n.diameter),
+                  lambda: (n.path_name, n.sep),
+                  lambda: (n.go_to(n.root), n.root.go_to(n), n.go_to(objs[0]))):
+            try:
+                f()
+            except Exception:  # noqa: BLE001 - BaseNode has no path_name, other tree, ...
+                pass
+
+
+def _build_hist(d):
+    """initial tree(s) -> warm-up -> edits with warm-ups in between -> objects in FINAL pre-order"""
+    from bigtree import Node, BaseNode
+    h = d["hist"]
+    if d["binary"]:
+        root, objs = core.build_binary_tree(h["inits"][0])
+        _fs, final_order = H.bstruct_final(h["inits"][0], h["edits"])
+        roots = [root]
+        apply = H.bapply_real
+    else:
+        objs, roots = [], []
+        def go(s, parent):
+            n = BaseNode() if d.get("cls") == "base" else Node(s[0])
+            objs.append(n)
+            if parent is not None:
+                n.parent = parent
+            for c in s[2]:
+                go(c, n)
+            return n
+        for sp in h["inits"]:
+            roots.append(go(sp, None))
+        _fs, final_order = H.final_forest(h["inits"], h["edits"])
+        apply = H.apply_real
+    _warmup(objs)
+    for e, w in zip(h["edits"], h["warm"]):
+        apply(objs, e)
+        if w:
+            _warmup(objs, light=w)
+    return roots, [objs[i] for i in final_order]
+
+
 def _build(d):
+    if d.get("hist"):
+        return _build_hist(d)
     def one(spec, binary):
         if binary:
             return core.build_binary_tree(spec)
@@ -316,6 +434,14 @@ def _bfs_ecc(start, inside):
 
 
 def oracle(case):
+    """never raises: a derived query that blows up on a tree reached through the public API is a failure"""
+    try:
+        return _oracle(case)
+    except Exception as e:  # noqa: BLE001
+        return [f"a derived query raised {type(e).__name__}: {str(e)[:120]}"]
+
+
+def _oracle(case):
     d = case.data
     _roots, nodes = _build(d)
     ids = core.IdMap(nodes)
@@ -408,7 +534,7 @@ def oracle(case):
 # ---------------------------------------------------------------- shrinking
 def shrink(case):
     d = case.data
-    if d["binary"] or d.get("spec2") is not None:
+    if d["binary"] or d.get("spec2") is not None or d.get("hist"):
         return
     spec = d["spec"]
     keep = {d["node"]} if d["op"] == "props" else {d["from"], d["to"]}
@@ -447,7 +573,7 @@ LEVEL_TEXT = ("Proof. Lean 4 theorems (C12.*) show, for every tree and every nod
               "by differential testing: all 13 properties on every node and go_to on every ordered pair of all ordered trees with <=6 "
               "(quick) / <=8 (thorough) nodes and all BinaryNode shapes with holes up to 5 / 6 nodes, random trees to 40 nodes, depth 10, "
               "fan-out 8 (incl. wide nodes whose tallest children come last), go_to across two trees; a model-free oracle (parent-chain "
-              "walks, own DFS, BFS eccentricities for the diameter, explicit LCA for go_to) re-derives every value from the real objects.")
+              "walks, own DFS, BFS eccentricities for the diameter, explicit LCA for go_to) re-derives every value from the real objects. History-built trees (warm-up reads, re-parentings incl. across trees, reorderings, refused edits, then the compared reads against the model of the final tree) make stale cached depth / root / ancestors or broken roll-backs visible.")
 LEVEL_NOTE = ("Trusted: Lean kernel, axioms <= {propext, Classical.choice, Quot.sound} (audited each run), the hand-written model's "
               "correspondence to basenode.py / binarynode.py as established by the tie (not proved), CPython. Object identity is modelled "
               "by addresses (root ids across trees); generators by the lists they yield; heapq.nlargest(2, l) by sorted(l, reverse=True)[:2]; "
